@@ -233,6 +233,29 @@ pub fn c15(sk: &Skeleton) -> Leaf {
             leaf.ob_bool("C15.error-is-descriptive", !leaf.msg.trim().is_empty(), "empty error message");
         }
     }
+    // the MCP tool handlers on the same hostile ledger, as DSL text and as a JSON array (handlers compiled from the current
+    // source of crates/cgt-mcp): an answer or an error message, never a panic
+    #[cfg(feature = "mcp")]
+    if crate::mcpgen::AVAILABLE && sk.opt_i64("mcp").unwrap_or(0) == 1 {
+        use crate::mcpgen::server::verif_entry as mcp;
+        let server = mcp::server(None, cfg.clone());
+        let dsl = cgt_core::dsl::transactions_to_dsl(&txs);
+        let js = serde_json::to_string(&txs).unwrap_or_default();
+        let mut replies = Vec::new();
+        for input in [&dsl, &js] {
+            replies.push(mcp::calculate_report(&server, input, None));
+            replies.push(mcp::calculate_report(&server, input, Some(2023)));
+            replies.push(mcp::parse_transactions(&server, input));
+            replies.push(mcp::convert_to_dsl(&server, input));
+            for l in lines.iter().filter(|l| l.kind == Kind::Sell).take(1) {
+                replies.push(mcp::explain_matching(&server, input, &l.date.to_string(), &l.ticker));
+                replies.push(mcp::explain_matching(&server, input, "2024-02-30", &l.ticker));
+                replies.push(mcp::explain_matching(&server, input, &l.date.to_string(), "NOSUCH"));
+            }
+        }
+        let empty = replies.iter().flatten().filter(|r| matches!(r, Err(m) if m.trim().is_empty())).count();
+        leaf.ob_bool("C15.mcp-error-is-descriptive", empty == 0, "an MCP tool returned an empty error message");
+    }
     leaf.ob_bool("C15.no-panic", true, "");
     leaf
 }
